@@ -58,7 +58,13 @@ struct Run<L: Language, N: Analysis<L>> {
     with_data: bool,
 }
 
-fn jstr(s: &str) -> String { format!("\"{}\"", s.replace('\\', "\\\\").replace('"', "\\\"").replace('\n', " ")) }
+fn jstr(s: &str) -> String {
+    let mut o = String::from("\"");
+    for c in s.chars() {
+        match c { '\\' => o.push_str("\\\\"), '"' => o.push_str("\\\""), c if (c as u32) < 0x20 || c == '\u{7f}' || (c as u32 >= 0x2028 && c as u32 <= 0x2029) => o.push_str(&format!("\\u{:04x}", c as u32)), c => o.push(c) }
+    }
+    o.push('"'); o
+}
 
 impl<L: Language + 'static, N: Analysis<L> + 'static> Run<L, N> where N::Data: std::fmt::Debug {
     fn name_of(&self, s: Slot) -> String {
@@ -250,8 +256,34 @@ fn run_slot_case(case: &[String]) -> String {
     format!("{{\"case\":{},\"slots\":[{}],\"equal_pairs\":[{}],\"panic\":{}}}", jstr(head[1]), out.join(","), eqs.join(","), match panic_msg { Some(m) => jstr(&m), None => "null".to_string() })
 }
 
+fn wf_pattern<L: Language>(p: &Pattern<L>) -> bool {
+    match p {
+        Pattern::ENode(n, cs) => n.applied_id_occurrences().len() == cs.len() && cs.iter().all(|c| wf_pattern(c)),
+        Pattern::PVar(_) => true,
+        Pattern::Subst(a, b, c) => wf_pattern(a) && wf_pattern(b) && wf_pattern(c),
+    }
+}
+fn parse_one<L: Language + 'static>(kind: &str, text: &str) -> String {
+    let r = catch_unwind(AssertUnwindSafe(|| match kind {
+        "pattern" => match Pattern::<L>::parse(text) { Ok(p) => format!("ok wf={} {}", wf_pattern(&p), p), Err(_) => "err".to_string() },
+        "recexpr" => match RecExpr::<L>::parse(text) { Ok(p) => format!("ok wf=true {}", p), Err(_) => "err".to_string() },
+        "multi" => match MultiPattern::<L>::parse(text) { Ok(p) => format!("ok wf=true {}", p), Err(_) => "err".to_string() },
+        "roundtrip" => match Pattern::<L>::parse(text) { Ok(p) => { let t2 = p.to_string(); match Pattern::<L>::parse(&t2) { Ok(p2) => format!("ok same={} {}", p2.to_string() == t2 && p2 == p, t2), Err(_) => format!("reparse-err {}", t2) } }, Err(_) => "err".to_string() },
+        _ => panic!("natdiff: parse kind"),
+    }));
+    match r { Ok(s) => s, Err(e) => format!("panic {}", if let Some(s) = e.downcast_ref::<String>() { s.clone() } else if let Some(s) = e.downcast_ref::<&str>() { s.to_string() } else { "?".to_string() }) }
+}
+fn run_parse_case(case: &[String]) -> String {
+    // case parse:<id> <lang> <kind> ; text <codepoints...>
+    let head: Vec<&str> = case[0].split_whitespace().collect();
+    let text: String = case[1].split_whitespace().skip(1).map(|x| char::from_u32(x.parse().unwrap()).unwrap()).collect();
+    let res = match head[2] { "Lf" => parse_one::<Lf>(head[3], &text), "Lb" => parse_one::<Lb>(head[3], &text), _ => panic!("natdiff: lang") };
+    format!("{{\"case\":{},\"text\":{},\"result\":{}}}", jstr(head[1]), jstr(&text), jstr(&res))
+}
+
 fn run_case(case: &[String]) -> String {
     if case[0].starts_with("case slot:") { return run_slot_case(case); }
+    if case[0].starts_with("case parse:") { return run_parse_case(case); }
     // case <id> <lang> <analysis> <f0> <named_max> ; names v0 v1 ... ; ops...
     let head: Vec<&str> = case[0].split_whitespace().collect();
     let (id, lang, analysis, f0, named): (&str, &str, &str, u32, u32) = (head[1], head[2], head[3], head[4].parse().unwrap(), head[5].parse().unwrap());
